@@ -345,7 +345,16 @@ func runC01(r *Run) {
 			for _, dbg := range []bool{false, true} {
 				// SetLevel has a process-wide side effect on debug mode; the cell sets the mode explicitly afterwards
 				own.SetLevel(slog.Level(L))
-				def.SetLevel(slog.Level(L))
+				// the default logger's level is set through the logger and through the package-level twins in turn
+				switch (L%3 + 3) % 3 {
+				case 0:
+					def.SetLevel(slog.Level(L))
+				case 1:
+					slog.SetLevel(slog.Level(L))
+				default:
+					slog.ResetLevel()
+					_ = slog.SaveLevelAndSet(slog.Level(L)) // (the restore function is not called: the level stays)
+				}
 				for _, ep := range eps {
 					e := own
 					if ep.Recv == "pkg" {
